@@ -1,7 +1,7 @@
 (* C14 — dimension sets behave as ordered sets of uniquely lettered dimensions.  Statements only. *)
 From Coq Require Import List Arith Bool.
 Import ListNotations.
-From Flodym Require Import Base.Env Model.Dims Model.SubArray Model.DimHeap Proofs.C14Proofs.
+From Flodym Require Import Base.Env Model.Dims Model.SubArray Model.DimHeap Proofs.C14Proofs Proofs.C14Lookup.
 
 (* ordered-set laws (for sets with unique letters) *)
 Theorem C14_union_keeps_left_order_and_appends_new :
@@ -59,3 +59,17 @@ Print Assumptions C14_letters_stay_unique.
 Example ex_C14_sharing_before_fix :
   objs (drun false [DNew [mk_dim 97 0 [0]]; DSubset 0 None]) = [0; 0].
 Proof. reflexivity. Qed.
+
+(* lookups agree with the order: the dimension at position i is the one found by its letter, index(letter) = i, its size is the i-th
+   entry of the shape, and it is a member *)
+Theorem C14_lookup_by_letter_agrees_with_position :
+  forall ds i d, NoDup (letters ds) -> nth_error ds i = Some d ->
+  find_key ds (KLetter (dletter d)) = Some d /\ ds_index ds (KLetter (dletter d)) = Some i
+  /\ nth_error (dshape ds) i = Some (dlen d) /\ has_key ds (KLetter (dletter d)) = true.
+Proof. exact lookup_by_letter_is_lookup_by_position. Qed.
+Print Assumptions C14_lookup_by_letter_agrees_with_position.
+
+Theorem C14_membership_is_membership_of_the_letter :
+  forall ds l, has_key ds (KLetter l) = Env.memb l (letters ds).
+Proof. exact membership_by_letter. Qed.
+Print Assumptions C14_membership_is_membership_of_the_letter.
